@@ -24,7 +24,11 @@ simple("C06", "model_checking",
        "over a 19-token alphabet (thorough) over a 34-token alphabet Sigma_idna (one code point per Bidi class RFC 5893 distinguishes, "
        "ZWJ, ZWNJ, virama, Joining_Type D/L/R/T/U incl. N'Ko, Mongolian, Adlam, marks of two classes, the four dots, 'xn--', '-', upper case, "
        "sharp s, final sigma, an ignored, a disallowed, a fullwidth, a precomposed letter, two Unicode 14 code points) and every ACE label "
-       "xn--<digits<=5/6> alone and next to a non-ASCII and an RTL label; (5) hostname of parse(\"https://<domain>/\") and set_hostname, both "
+       "xn--<digits<=5/6> alone and next to a non-ASCII and an RTL label; (4b) label sequences: every domain of 2 and 3 labels (thorough: +4 over a "
+       "14-label sub-menu) over a menu of 22 WHOLE labels (valid ACE labels incl. R and AL ones, ACE labels rejected each for a different reason - "
+       "ASCII-only decode, non-NFC decode, invalid digit, leading mark, mapped decode, xn-- decode, disallowed decode, Bidi-breaking decode -, "
+       "upper-case ACE, plain ASCII, raw non-ASCII, empty label) through to_ascii, to_unicode, parse and set_hostname: state carried from one "
+       "label to the next; (5) hostname of parse(\"https://<domain>/\") and set_hostname, both "
        "URL types, raw and percent-encoded, vs refurl; (6) per-code-point table audits through is_label_valid verdicts on probe labels and normalize() output on mark pairs: "
        "combining marks, virama, joining types, canonical combining class vs Unicode 17, Bidi class vs Unicode 15.1 on 15.1-assigned code "
        "points; (7) IdnaTestV2.json + toascii.json vectors. states = distinct results, transitions = evaluations, every evaluation is one "
@@ -49,7 +53,8 @@ simple("C16", "exploration",
        "every decomposable thorough): the orbit of x generated structurally - all 2^n ASCII case variants (n<=4), fullwidth<->ASCII letters, "
        "each of the four dots <-> the others, each ignored code point U+00AD U+200B U+FE0F U+E0100 inserted at every position, and the closure "
        "(<=48 members) under local canonical rewrites between IDNA-valid code points (decompose one character, compose an adjacent pair, swap "
-       "adjacent marks of different non-zero class, NFD, NFC); every member must give the same to_ascii result as x or fail with it, and the "
+       "adjacent marks of different non-zero class, NFD, NFC), and the same for every 2-label (quick: + 3 over 14 labels; thorough: 2-3 over all 22) "
+       "sequence of C06's whole-label menu; every member must give the same to_ascii result as x or fail with it, and the "
        "same hostname through ada::parse; to_ascii(to_ascii(x)) = to_ascii(x); to_ascii(to_unicode(to_ascii(x))) = to_ascii(x) for non-ASCII x; "
        "results lower-case ASCII; non-trivial = x accepted; distinct = distinct results",
        ["oracle: metamorphic (the library against itself); refidna is used only as a filter: a pair is judged only when UTS #46 itself gives both "
